@@ -687,6 +687,14 @@ def main(argv):
     except ValueError:
         seed = 1
     rp = os.path.abspath(a.replay) if a.replay else None
+    # One check at a time per /verif tree: lean/Uquic/Generated and the compiled oracles are shared state that is
+    # regenerated from whatever repository the running check points at (VERIF_REPO), so two interleaved checks
+    # could run an oracle built against the other's facts.
+    with Lock("check.lock"):
+        return _main_locked(a, seed, rp)
+
+
+def _main_locked(a, seed, rp):
     if rp and rp.endswith(".txt"):
         # a proof / build problem report: there is no history to re-run; show it and re-check the proofs
         print(open(rp, errors="replace").read())
